@@ -36,10 +36,18 @@ enum Op {
     Chmod(usize, u32),
     ListDir(usize),
     RemoveDirAll(usize),
+    /// link name (FILES index), target (TARGETS index)
+    Symlink(usize, usize),
+    ReadLink(usize),
+    LStat(usize),
+    Canonicalize(usize),
+    CreateDirPlain(usize),
 }
 
 const DIRS: [&str; 3] = ["d1", "d1/sub", "d2"];
-const FILES: [&str; 7] = ["d1/a", "d1/a.tmp", "d1/b", "d1/sub/c", "d2/a", "x", "d1/sub"];
+const FILES: [&str; 9] = ["d1/a", "d1/a.tmp", "d1/b", "d1/sub/c", "d2/a", "x", "d1/sub", "d2/l", "d1/l/a"];
+/// symbolic-link targets: relative ones, and `@/...` = absolute under the base directory
+const TARGETS: [&str; 9] = ["a", "../d2/a", "sub/c", "sub", "@/d2", "@/d1/b", "l", "../d1", "nowhere/x"];
 
 fn gen(seed: u64) -> Vec<Op> {
     let mut r = Rng::new(seed);
@@ -52,7 +60,7 @@ fn gen(seed: u64) -> Vec<Op> {
         let f = r.below(FILES.len() as u64) as usize;
         let g = r.below(FILES.len() as u64) as usize;
         let s = r.below(3) as usize;
-        v.push(match r.weighted(&[2, 5, 2, 2, 2, 1, 8, 2, 2, 2, 2, 4, 3, 4, 2, 3, 1, 3, 1, 4, 1]) {
+        v.push(match r.weighted(&[2, 5, 2, 2, 2, 1, 8, 2, 2, 2, 2, 4, 3, 4, 2, 3, 1, 3, 1, 4, 1, 5, 2, 3, 2, 1]) {
             0 => Op::MkdirAll(r.below(DIRS.len() as u64) as usize),
             1 => Op::Create(s, f),
             2 => Op::OpenAppend(s, f),
@@ -73,7 +81,12 @@ fn gen(seed: u64) -> Vec<Op> {
             17 => Op::Len(f),
             18 => Op::Chmod(f, *r.pick(&[0o600u32, 0o644, 0o700])),
             19 => Op::ListDir(r.below(DIRS.len() as u64) as usize),
-            _ => Op::RemoveDirAll(r.below(DIRS.len() as u64) as usize),
+            20 => Op::RemoveDirAll(r.below(DIRS.len() as u64) as usize),
+            21 => Op::Symlink(f, r.below(TARGETS.len() as u64) as usize),
+            22 => Op::ReadLink(f),
+            23 => Op::LStat(f),
+            24 => Op::Canonicalize(f),
+            _ => Op::CreateDirPlain(f),
         });
     }
     v
@@ -194,8 +207,9 @@ fn execute(base: &str, ops: &[Op]) -> Vec<String> {
                     for e in rd {
                         match e {
                             Ok(e) => {
-                                let ft = e.file_type().map(|t| if t.is_dir() { "d" } else { "f" }).unwrap_or("?");
-                                let len = e.metadata().map(|m| if m.is_dir() { 0 } else { m.len() }).map_err(|x| x.raw_os_error());
+                                let ft = e.file_type().map(|t| if t.is_dir() { "d" } else if t.is_symlink() { "l" } else { "f" }).unwrap_or("?");
+                                // (the length of a link is the length of its target text, which contains the base directory)
+                                let len = e.metadata().map(|m| if m.is_dir() || m.file_type().is_symlink() { 0 } else { m.len() }).map_err(|x| x.raw_os_error());
                                 v.push(format!("{}:{}:{:?}", e.file_name().to_string_lossy(), ft, len));
                             }
                             Err(x) => v.push(format!("Err(os {:?})", x.raw_os_error())),
@@ -207,6 +221,17 @@ fn execute(base: &str, ops: &[Op]) -> Vec<String> {
                 Err(e) => show::<()>(Err(e)),
             },
             Op::RemoveDirAll(d) => show(fs::remove_dir_all(dpath(*d))),
+            Op::Symlink(f, t) => {
+                let target = match TARGETS[*t].strip_prefix('@') {
+                    Some(abs) => format!("{}{}", base, abs),
+                    None => TARGETS[*t].to_string(),
+                };
+                show(std::os::unix::fs::symlink(target, p(*f)))
+            }
+            Op::ReadLink(f) => show(fs::read_link(p(*f)).map(|t| t.to_string_lossy().replace(base.trim_end_matches("/b"), "@"))),
+            Op::LStat(f) => show(fs::symlink_metadata(p(*f)).map(|m| (m.file_type().is_symlink(), m.is_dir(), if m.is_dir() { 0 } else { m.len() - if m.file_type().is_symlink() && fs::read_link(p(*f)).map(|t| t.is_absolute()).unwrap_or(false) { base.len() as u64 } else { 0 } }))),
+            Op::Canonicalize(f) => show(fs::canonicalize(p(*f)).map(|t| t.to_string_lossy().replace(base.trim_end_matches("/b"), "@"))),
+            Op::CreateDirPlain(f) => show(fs::create_dir(p(*f))),
             Op::Chmod(f, mode) => {
                 use std::os::unix::fs::PermissionsExt;
                 let r = fs::set_permissions(p(*f), std::fs::Permissions::from_mode(*mode));
@@ -223,6 +248,7 @@ fn execute(base: &str, ops: &[Op]) -> Vec<String> {
             Err(e) => format!("final {} = Err(os {:?})", f, e.raw_os_error()),
         };
         out.push(line);
+        out.push(format!("final link {} = {}", f, show(fs::read_link(p(i)).map(|t| t.to_string_lossy().replace(base.trim_end_matches("/b"), "@")))));
     }
     out
 }
@@ -239,23 +265,30 @@ pub fn run(n: u64) -> i32 {
         let env = ProcEnv::new(seed, time::Date::from_calendar_date(2024, time::Month::June, 3).unwrap());
         let ops2 = ops.clone();
         let sim = run_process(&env, move || {
-            let _ = std::fs::create_dir_all("/simfs/st");
-            execute("/simfs/st", &ops2)
+            let _ = std::fs::create_dir_all("/simfs/st/b");
+            execute("/simfs/st/b", &ops2)
         });
         let sim_lines = match sim.result {
             Ok(l) => l,
             Err(p) => vec![format!("PANIC {}", p)],
         };
         // real kernel
-        let base = format!("{}/{}", real_root, seed);
-        let _ = std::fs::remove_dir_all(&base);
+        // (one level of nesting: a link target with `..` stays inside this sequence's own directory)
+        let outer = format!("{}/{}", real_root, seed);
+        let base = format!("{}/b", outer);
+        let _ = std::fs::remove_dir_all(&outer);
         std::fs::create_dir_all(&base).expect("selftest scratch directory");
         let real_lines = execute(&base, &ops);
-        let _ = std::fs::remove_dir_all(&base);
+        let _ = std::fs::remove_dir_all(&outer);
         if !sim.unmodelled.is_empty() {
             println!("selftest-simfs: seed {} used an un-modelled call: {:?}", seed, sim.unmodelled);
             bad += 1;
             continue;
+        }
+        if std::env::var("VERIF_SELFTEST_SHOW").ok().and_then(|v| v.parse::<u64>().ok()) == Some(seed) {
+            for (a, b) in sim_lines.iter().zip(real_lines.iter()) {
+                println!("{} {}\n    real: {}", if a == b { " " } else { "!" }, a, b);
+            }
         }
         if sim_lines != real_lines {
             bad += 1;
